@@ -270,7 +270,9 @@ func (refmux) Execute(scAny any, keepLog bool) *core.Outcome {
 				continue
 			}
 		}
-		if psiPID[d.PID] && sc.Demux.Reader.Kind != "bufio" {
+		// (a straddled unit is complete only with the head of the next payload_unit_start packet:
+		// "the unit's last packet" is not defined for it and the clause is not judged)
+		if psiPID[d.PID] && sc.Demux.Reader.Kind != "bufio" && !straddled[[2]int{w[k].stream, w[k].unit}] {
 			if w[k].first {
 				if r.Pos != w[k].endOff {
 					out.Violate("C02", "read-ahead", dataKind(d), "PID %#x datum %d: returned with the reader at offset %d, the unit's last packet ends at %d", d.PID, k, r.Pos, w[k].endOff)
